@@ -554,11 +554,16 @@ func (f *Fresh) writes(fn *ssa.Function) []writeEv {
 					p.Steps = append(p.Steps, step{Deref: true}, step{Elem: true})
 					out = append(out, writeEv{Fn: fn, Ins: i, Kind: "copy", Target: p, Fresh: f.freshBasedRef(cc.Args[0])})
 				case "append":
-					// append(x[:n], …) may write into x's backing array below x's length
-					if sl, ok := cc.Args[0].(*ssa.Slice); ok && sl.High != nil && len(cc.Args) > 1 {
-						p := path(sl.X)
-						p.Steps = append(p.Steps, step{Deref: true}, step{Elem: true})
-						out = append(out, writeEv{Fn: fn, Ins: i, Kind: "append-reslice", Target: p, Fresh: f.freshBasedRef(sl.X)})
+					// append(x[:n], …) — directly or through a loop-carried variable initialised with x[:n] — writes
+					// into x's backing array below x's length. (x[:n:n] forces a copy and is fine.)
+					if len(cc.Args) > 1 {
+						for _, o := range appendOrigins(cc.Args[0]) {
+							if sl, ok := o.(*ssa.Slice); ok && sl.High != nil && sl.Max == nil {
+								p := path(sl.X)
+								p.Steps = append(p.Steps, step{Deref: true}, step{Elem: true})
+								out = append(out, writeEv{Fn: fn, Ins: i, Kind: "append-reslice", Target: p, Fresh: f.freshBasedRef(sl.X)})
+							}
+						}
 					}
 				}
 				return
@@ -664,4 +669,33 @@ func fieldCellValues(base ssa.Value, idx int) ([]ssa.Value, bool) {
 		return nil, false
 	}
 	return vals, true
+}
+
+// appendOrigins: the values an append base may stem from, looking through phis and earlier appends.
+func appendOrigins(v ssa.Value) []ssa.Value {
+	var out []ssa.Value
+	seen := map[ssa.Value]bool{}
+	var visit func(v ssa.Value)
+	visit = func(v ssa.Value) {
+		if seen[v] {
+			return
+		}
+		seen[v] = true
+		switch x := v.(type) {
+		case *ssa.Phi:
+			for _, e := range x.Edges {
+				visit(e)
+			}
+		case *ssa.Call:
+			if b, ok := x.Call.Value.(*ssa.Builtin); ok && b.Name() == "append" {
+				visit(x.Call.Args[0])
+				return
+			}
+			out = append(out, v)
+		default:
+			out = append(out, v)
+		}
+	}
+	visit(v)
+	return out
 }
